@@ -79,6 +79,7 @@ REQUIRED = [
     'wipv4_MIN_MTU', 'wipv6_MIN_MTU',
     'wipv4_HEADER_LEN', 'phy_IPV4_FRAGMENT_PAYLOAD_ALIGNMENT',
     'cfg_FRAGMENTATION_BUFFER_SIZE', 'cfg_REASSEMBLY_BUFFER_COUNT',
+    'wipv6_HEADER_LEN', 'wicmpv4_HEADER_END',
 ]
 
 INT = r'(?:0x[0-9a-fA-F_]+|0b[01_]+|[0-9][0-9_]*)'
